@@ -120,6 +120,9 @@ def skeletons(tier, seed):
         eqsets += [list(p) for p in itertools.permutations(ONES[:4], 3)][::3]
         eqsets += [[{'c': 'tuple', 'items': [ONES[0], ONES[0]]}, {'c': 'tuple', 'items': [ONES[1], ONES[1]]}]]
     sets += eqsets
+    # a bare object() next to items of other types (its hint is `object`, which a union must keep)
+    OBJ = {'c': 'object'}
+    sets += [[OBJ, leaves[0]], [leaves[0], OBJ], [OBJ, leaves[1], leaves[0]], [leaves[1], OBJ], [OBJ, OBJ, leaves[0]]]
     d1 = [s for s in containers_of(sets, tier) if _ok(s)]
     out = list(leaves) + d1
     # depth 2: containers of depth-1 containers (one or two children)
